@@ -370,14 +370,71 @@ def whole_length(n):
     return [("source", [(0, n, 1)]), ("source", [(0, n, None)]), ("misc_feature", [(0, n, 1)]), ("misc_feature", [(0, n, -1)])]
 
 
-def mk_location(parts):
-    locs = [FeatureLocation(a, b, strand=s) for (a, b, s) in parts]
-    return locs[0] if len(locs) == 1 else CompoundLocation(locs)
+def mk_location(parts, fuzzy=False, operator="join"):
+    from Bio.SeqFeature import BeforePosition, AfterPosition, WithinPosition, BetweenPosition, OneOfPosition, ExactPosition
+    if fuzzy is True or fuzzy == "fuzzy":
+        # GenBank `<a..>b`: the feature extends beyond what is annotated; the nucleotides denoted are the same
+        locs = [FeatureLocation(BeforePosition(a), AfterPosition(b), strand=s) for (a, b, s) in parts]
+    elif fuzzy == "within":
+        # GenBank `(a.a+1)..(b-1.b)`: as an integer the start is its left and the end its right extreme
+        locs = [FeatureLocation(WithinPosition(a, a, min(a + 1, b)), WithinPosition(b, max(b - 1, a), b), strand=s) for (a, b, s) in parts]
+    elif fuzzy == "between":
+        locs = [FeatureLocation(BetweenPosition(a, a, min(a + 1, b)), BetweenPosition(b, max(b - 1, a), b), strand=s) for (a, b, s) in parts]
+    elif fuzzy == "oneof":
+        locs = [FeatureLocation(OneOfPosition(a, [ExactPosition(a), ExactPosition(min(a + 1, b))]),
+                                OneOfPosition(b, [ExactPosition(max(b - 1, a)), ExactPosition(b)]), strand=s) for (a, b, s) in parts]
+    else:
+        locs = [FeatureLocation(a, b, strand=s) for (a, b, s) in parts]
+    return locs[0] if len(locs) == 1 else CompoundLocation(locs, operator)
+
+
+def qualifiers_for(fid):
+    """Qualifier shapes, chosen by the number at the end of the feature id: list-valued (what the GenBank parser
+    produces), plain-string / tuple values (what hand-written code and moclo's own provenance features use),
+    the same value given twice, and an OrderedDict."""
+    import collections
+    digits = ""
+    for ch in reversed(fid):
+        if not ch.isdigit():
+            break
+        digits = ch + digits
+    shape = int(digits) % 4 if digits else 0
+    if shape == 1:
+        return {"label": fid, "note": ("n-" + fid, "second")}
+    if shape == 2:
+        return {"label": [fid, fid], "note": ["n-" + fid, "second"]}
+    if shape == 3:
+        return collections.OrderedDict([("note", ["n-" + fid, "second"]), ("label", [fid])])
+    return {"label": [fid], "note": ["n-" + fid, "second"]}
 
 
 def mk_feature(parts, type="misc_feature", fid="f", qualifiers=None):
-    q = {"label": [fid], "note": ["n-" + fid, "second"]} if qualifiers is None else qualifiers
-    return SeqFeature(mk_location(parts), type=type, id=fid, qualifiers=q)
+    """feature types starting with `fuzzy_` get fuzzy end points, types starting with `ordered_` an order(...) location"""
+    q = qualifiers_for(fid) if qualifiers is None else qualifiers
+    fuzzy = type.split("_", 1)[0] if type.split("_", 1)[0] in ("fuzzy", "within", "between", "oneof") else False
+    loc = mk_location(parts, fuzzy=fuzzy, operator="order" if type.startswith("ordered_") else "join")
+    return SeqFeature(loc, type=type, id=fid, qualifiers=q)
+
+
+def decorations(n):
+    """Features of every unusual but legal shape, spread around a record of length n (used to check that what a record is
+    annotated with does not change what an assembly does with it)."""
+    feats = []
+    if n < 12:
+        return feats
+    spots = sorted(set([0, n // 5, (2 * n) // 5, n // 2, (3 * n) // 5, (4 * n) // 5, n - 6]))
+    types = ["misc_feature", "fuzzy_region", "within_region", "between_region", "oneof_region", "ordered_region", "CDS"]
+    i = 0
+    for a in spots:
+        for t in types:
+            parts = [(a, a + 2, 1), (a + 3, a + 5, 1)] if t in ("ordered_region", "CDS") else [(a, a + 5, -1 if i % 2 else 1)]
+            feats.append(mk_feature(parts, type=t, fid="d%d" % i))
+            i += 1
+    feats.append(mk_feature([(n - 3, n, 1), (0, 3, 1)], type="CDS", fid="d%d" % i))          # across the origin
+    feats.append(mk_feature([(n // 2, n // 2, 1)], type="misc_feature", fid="d%d" % (i + 1)))  # zero-length
+    feats.append(SeqFeature(FeatureLocation(2, 9, strand=1, ref="X00001.1", ref_db="GenBank"), type="misc_feature", id="dref",
+                            qualifiers={"label": "elsewhere"}))                                  # location in another record
+    return feats
 
 
 def feature_table(n, boundary_only=False):
@@ -385,6 +442,12 @@ def feature_table(n, boundary_only=False):
     tab = [("misc_feature", p) for p in simple_locations(n, boundary_only=boundary_only)]
     tab += [("CDS", p) for p in join_menu(n)]
     tab += whole_length(n)
+    # unusual but legal location shapes: fuzzy end points, order(...) instead of join(...)
+    if n >= 6:
+        tab += [("fuzzy_region", [(1, 4, 1)]), ("fuzzy_region", [(2, n - 1, -1)]), ("fuzzy_region", [(0, 2, 1), (3, 5, 1)]),
+                ("ordered_region", [(0, 2, 1), (3, 5, 1)]), ("ordered_region", [(4, 6, -1), (1, 3, -1)]), ("fuzzy_region", [(n - 2, n, 1)]),
+                ("within_region", [(1, 4, 1)]), ("within_region", [(n - 3, n, -1)]), ("between_region", [(2, 5, 1)]), ("between_region", [(0, n - 1, -1)]),
+                ("oneof_region", [(1, 4, -1)]), ("oneof_region", [(n - 2, n, 1)]), ("oneof_region", [(0, 2, 1), (3, 5, 1)])]
     # zero-length features (between-base markers, GenBank `a^a+1`)
     tab += [("misc_feature", [(a, a, s)]) for a in (range(n + 1) if not boundary_only else sorted({0, 1, n // 2, n - 1, n})) for s in (1, -1)]
     # features *typed* "source" that do not cover the whole record (e.g. inherited provenance features)
